@@ -5,6 +5,7 @@ package websockets
 import (
 	"bytes"
 	"encoding/hex"
+	"fmt"
 	"io"
 	"net/http"
 	"strings"
@@ -90,7 +91,14 @@ func TestVerifC14Shim(t *testing.T) {
 			hdr.Set("Content-Type", ct)
 		}
 		sb := &verifSegBody{data: body, segs: segs}
-		resp := &http.Response{StatusCode: 200, Header: hdr, Body: sb}
+		resp := &http.Response{StatusCode: 200, Header: hdr, Body: sb, ContentLength: int64(len(body))}
+		hdr.Set("Content-Length", fmt.Sprint(len(body)))
+		if i%3 == 0 {
+			// a response of unknown length (chunked, HTTP/1.0 close-delimited, HTTP/2 without a length)
+			resp.ContentLength = -1
+			hdr.Del("Content-Length")
+		}
+		hadLength := resp.ContentLength >= 0
 		ferr := fn(resp)
 		got, _ := io.ReadAll(resp.Body)
 		first := 0
@@ -110,7 +118,7 @@ func TestVerifC14Shim(t *testing.T) {
 			errs = ferr.Error()
 		}
 		rec := map[string]interface{}{"kind": "shim", "content_type": ct, "body_len": len(body), "first_read": first, "segs": segs, "out_len": len(got),
-			"unchanged": bytes.Equal(got, body), "content_length_kept": resp.Header.Get("Content-Length") != "", "other_kept": resp.Header.Get("X-Other") == "o", "err": errs}
+			"unchanged": bytes.Equal(got, body), "content_length_kept": (resp.Header.Get("Content-Length") != "") == hadLength, "had_length": hadLength, "content_length_after": resp.Header.Get("Content-Length"), "other_kept": resp.Header.Get("X-Other") == "o", "err": errs}
 		// where (if anywhere) the script was inserted
 		if idx := bytes.Index(got, []byte(script)); idx >= 0 && len(script) > 0 {
 			rec["insert_at"] = idx
